@@ -85,6 +85,7 @@ type FnCtx struct {
 	aborted  string
 	divw     map[string]string
 	entryNow string
+	extraEnv map[string]Val
 	curLoopFrame  []*frame
 	curLoopBlocks map[*ssa.BasicBlock]bool
 }
@@ -223,6 +224,7 @@ type Path struct {
 	depth    int
 	allocs   []string
 	dead     bool
+	fnret    map[string]Val // last value returned by a call through a function-valued parameter
 	bases    []string
 	acq      map[string]HeapView // heap at the acquisition of a monitored lock (for two-state guarantees)
 }
@@ -246,6 +248,12 @@ func (p *Path) clone() *Path {
 	}
 	q.trace = append([]string(nil), p.trace...)
 	q.bases = append([]string(nil), p.bases...)
+	if p.fnret != nil {
+		q.fnret = map[string]Val{}
+		for k, v := range p.fnret {
+			q.fnret[k] = v
+		}
+	}
 	if p.acq != nil {
 		q.acq = map[string]HeapView{}
 		for k, v := range p.acq {
